@@ -32,6 +32,10 @@ std::vector<PacketPtr> TECMP::Decoder::Decode(const void* data, const std::size_
 
 TecmpPayloadPtr TECMP::Decoder::GetCaptureModulePayload(const uint8_t* payloadData, const std::size_t size)
 {
+    // The payload has to hold the complete status header, the converter reads all of it
+    if (size < CaptureModulePayload().getLength())
+        return {};
+
     CaptureModulePayload payload(payloadData, size);
     if (payload.isValid())
         return std::make_shared<Payload>(payload);
